@@ -74,14 +74,21 @@ func (c *counter) Inc(v int64) {
 }
 
 func (c *counter) value() int64 {
-	curr := atomic.LoadInt64(&c.curr)
-
-	prev := atomic.LoadInt64(&c.prev)
-	if prev == curr {
-		return 0
+	// n.b. Several reports may run at the same time (the periodic report, the
+	//      final report on Close and the report of a re-acquired closed
+	//      scope), so the delta must be claimed atomically. prev must be
+	//      loaded before curr, otherwise a concurrent reporter can advance
+	//      prev past the value of curr read here.
+	for {
+		prev := atomic.LoadInt64(&c.prev)
+		curr := atomic.LoadInt64(&c.curr)
+		if prev == curr {
+			return 0
+		}
+		if atomic.CompareAndSwapInt64(&c.prev, prev, curr) {
+			return curr - prev
+		}
 	}
-	atomic.StoreInt64(&c.prev, curr)
-	return curr - prev
 }
 
 func (c *counter) report(name string, tags map[string]string, r StatsReporter) {
